@@ -198,12 +198,15 @@ def asm_descs(rng, count):
     return out
 
 
-def run_inputs(ctx, exe, d, name, mode, lines, files_base):
+def run_inputs(ctx, exe, d, name, mode, lines, files_base, cls=None):
     """Run a batch; restart after the culprit when the process dies or exceeds its CPU budget."""
     inp = os.path.join(d, name + ".txt")
     with open(inp, "w") as fh:
         fh.write("\n".join(lines) + "\n")
     drv = os.path.join(d, "driver.janet")
+    # signature prefix: for unmarshal images the class of the parent image (E = carries environment / frame data of closures or fibers,
+    # which janet validates lazily - one known class of defects; P = plain values, functions without captured environments, PEGs, channels)
+    pfx = mode if cls is None else "%s:%s" % (mode, cls)
     start = 0
     total = len(lines)
     guard = 0
@@ -229,7 +232,7 @@ def run_inputs(ctx, exe, d, name, mode, lines, files_base):
             # sanitizer reports without death (recoverable UB) are still collected
             ctx.note_ub(res.ub)
             for kind, sig, text in res.san:
-                ctx.violation("%s:%s" % (mode, sig), "sanitizer report during batch %s: %s" % (name, text[:300]), dict(files_base, **{"sanitizer.txt": text}))
+                ctx.violation("%s:%s" % (pfx, sig), "sanitizer report during batch %s: %s" % (name, text[:300]), dict(files_base, **{"sanitizer.txt": text}))
             return
         culprit = lines[last_b] if 0 <= last_b < total else ""
         cfiles = dict(files_base, **{"input.txt": culprit + "\n", "mode.txt": mode, "stderr_tail.txt": err[-3000:]})
@@ -241,13 +244,13 @@ def run_inputs(ctx, exe, d, name, mode, lines, files_base):
                 ctx.count("exercise_unbounded")   # an accepted function may legitimately loop: not judged
         elif res.san:
             for kind, sig, text in res.san[:1]:
-                ctx.violation("%s:%s" % (mode, sig), "sanitizer report on input %s...: %s" % (culprit[:80], text[:300]), dict(cfiles, **{"sanitizer.txt": text}))
+                ctx.violation("%s:%s" % (pfx, sig), "sanitizer report on input %s...: %s" % (culprit[:80], text[:300]), dict(cfiles, **{"sanitizer.txt": text}))
         elif res.sig is not None:
-            ctx.violation("%s:signal-%s" % (mode, signal.Signals(res.sig).name), "process died on input %s..." % culprit[:80], cfiles)
+            ctx.violation("%s:signal-%s" % (pfx, signal.Signals(res.sig).name), "process died on input %s..." % culprit[:80], cfiles)
         else:
             tail = err.strip().splitlines()[-1][:100] if err.strip() else ""
             import re
-            ctx.violation("%s:process-exit:%s" % (mode, re.sub(r"0x[0-9a-fA-F]+|\d+", "N", tail)), "process exited (status %s) on input %s...; stderr tail %s" % (res.rc, culprit[:80], tail), cfiles)
+            ctx.violation("%s:process-exit:%s" % (pfx, re.sub(r"0x[0-9a-fA-F]+|\d+", "N", tail)), "process exited (status %s) on input %s...; stderr tail %s" % (res.rc, culprit[:80], tail), cfiles)
         start = last_b + 1 if last_b >= start else start + 1
 
 
@@ -264,7 +267,8 @@ def run(ctx):
     open(os.path.join(d, "driver.janet"), "w").write(DRIVER)
     cg = os.path.join(d, "corpus.janet")
     open(cg, "w").write(CORPUS_GEN)
-    res = core.run([exe, cg], timeout=120)
+    # relative script name: the source path is embedded in every function image, and the corpus (hence every mutant) must not depend on the run directory
+    res = core.run([exe, "corpus.janet"], timeout=120, cwd=d)
     corpus = []
     for line in res.out.decode(errors="replace").splitlines():
         tag, hx = line.split(" ")
@@ -312,5 +316,8 @@ def run(ctx):
         name, mode, lines = jobs[j]
         sub = core.case_dir()
         open(os.path.join(sub, "driver.janet"), "w").write(DRIVER)
-        run_inputs(ctx, exe, sub, name, mode, lines, files_base)
+        cls = None
+        if mode == "exercise":
+            cls = "E" if name.startswith(("closure", "fiber", "nested-fiber", "mixed", "random")) else "P"
+        run_inputs(ctx, exe, sub, name, mode, lines, files_base, cls)
     core.pmap(one, range(len(jobs)))
